@@ -439,8 +439,19 @@ def check_walk(repo: Repo, res: Result, it: M.Interp, internal: set[str]) -> "bo
         k = disj(p.guard for p in sink.imports.parts if p.kind == "lit" and any(i is ci for i in p.items))
         if any(p.kind != "lit" for p in sink.imports.parts):
             return None  # the import list is not made of the concrete imports only
+        gaps = not_understood(itc, k)
+        if gaps:
+            # a value the interpreter had to leave open decides here (a table look-up, an opaque call ..): which names the
+            # patterns are applied to cannot be read off this formula - no verdict from the unrolling
+            res.observe(f"C10.R4 ancestor walk: the retention of the import of `{ci.name}` contains tests the model does not know ({', '.join(gaps[:4])}) - no verdict from the unrolling")
+            return None
         lineage = [ci.name, *reversed(M.dotted_ancestors(ci.name))]
         excl = {n: f"EXCL({n!r})" for n in lineage}
+        inexact = sorted(a_ for a_ in atoms_of(k) if (a_.startswith(("EXCL(", "∃EXCL", "EXCL[")) and a_ not in {f"EXCL({n!r})" for n in itc.CONCRETE_NAMES}) or M._SYM.search(a_))
+        if inexact:
+            # a pattern test on a name the run could not compute, a fact about a generic element: the names were not all followed
+            res.observe(f"C10.R4 ancestor walk: the retention of the import of `{ci.name}` mentions names the unrolling could not compute ({', '.join(inexact[:4])}) - no verdict from the unrolling")
+            return None
         others = sorted(atoms_of(k) - set(excl.values()))
         if len(others) > 12:
             return None
@@ -472,7 +483,12 @@ def check_walk(repo: Repo, res: Result, it: M.Interp, internal: set[str]) -> "bo
         if c not in cuts:
             cuts.append(c)
     if not any(t for _n, t, _sk, _x, _k in verdicts):
-        return None  # no pattern test on any concrete name met: the symbolic obligations speak
+        # no pattern test on any concrete name has a say.  When every retention condition is made of facts about the options and
+        # about the concrete names only (nothing left open, no pattern test in another spelling), that is the verdict: the
+        # patterns are never consulted.  Otherwise the symbolic obligations speak.
+        names_ok = {f"{kind}({n!r})" for kind in ("EXCL", "INT") for n in itc.CONCRETE_NAMES} | {"FLAG", "HAS"}
+        if not all(atoms_of(k_) <= names_ok for _n, _t, _sk, _x, k_ in verdicts) or not any("HAS" in atoms_of(k_) for _n, _t, _sk, _x, k_ in verdicts):
+            return None
     bad = [(n, t, sk) for n, t, sk, _x, _k in verdicts if sk]
     construct = sink_key + " [include mode: every ancestor consulted]"
     if bad:
@@ -859,6 +875,20 @@ def check_sink(repo: Repo, res: Result, it: M.Interp, s: M.Sink, walk_ok: "bool 
             res.add("C10.R4", part_key(repo, p) + " [include mode only]", False, f"`{norm(p.node, 70)}` appends {what} under `{show(gate)}` although externals are excluded: with externals excluded the module list is not the scanned list", p.where(), kind="dominance")
         else:
             res.undecide("C10.R4", part_key(repo, p) + " [include mode only]", f"cannot establish that `{show(gate)}` implies that externals are included", p.where())
+        # excluded externals disappear together with their imports: a name derived from an import reaches the module list only
+        # when the patterns spare it (the importee: itself and its ancestors; an ancestor: itself, unless it is a scanned module)
+        # (stated relative to the import list handed to the graph: the names come from a retained import, or the patterns spare
+        # them - which names the import filter applies the patterns to is the business of the unrolled obligations)
+        spared = conj([f_not(EX), f_not(EXA)]) if p.what == "self" else disj([f_not(atom(f"EXCL[anc:{E}]")), atom(f"INSCAN[anc:{E}]")])
+        concl = disj([k_imp_r, spared])
+        st, w = tri(it, conj([gate, f_not(FLAG), f_not(INT)]), concl)  # (names below the internal prefix: R3)
+        key_x = part_key(repo, p) + " [excluded externals are not appended]"
+        if st == "ok":
+            res.add("C10.R4", key_x, True, f"{what} of an import become(s) a module only when the import is among those handed to the graph or no external exclusion pattern matches the name (the importee: nor one of its ancestors)", p.where(), kind="dominance")
+        elif st == "violated":
+            res.add("C10.R4", key_x, False, f"`{norm(p.node, 70)}` adds {what} of an import as module(s) under `{show(gate)}`, which holds for an import that is not handed to the graph because an external exclusion pattern matches {'the importee or one of its ancestors' if p.what == 'self' else 'that ancestor'} (witness: {fmt_env(w)}): the import is dropped but the excluded external stays in the architecture as a module (the names are derived from imports that were not filtered, and the module-list filter only looks at the name itself)", p.where(), kind="dominance")
+        else:
+            res.observe(f"C10.R4 {key_x}: not decided (`{show(gate)}` -> `{show(concl)}` hinges on facts the model does not know)")
     for whatk, label in (("self", "importee"), ("parents", "ancestors")):
         name = E if whatk == "self" else f"anc:{E}"
         present = disj([*cover[whatk], conj([atom(f"INSCAN[{name}]"), rename_sym(k_scan_r, E, name)])])
